@@ -1,16 +1,17 @@
 SPECIFICATION Spec
 CONSTANTS Weights = {1, 49, 50, 51, 100}
  MaxSigners = 3
+ ExtraCfgs <- McExtraThorough
  MaxSigs = 3
  TamperFields = {"to", "amount", "gasPrice", "gasLimit", "data", "expiration", "chainID", "type", "toName", "message", "gasPayer", "version"}
  PayCfgs <- McPayCfgs
  PaySenders <- McPaySenders
  PayFields = {"gasPrice", "gasLimit", "sigs", "amount", "gasPayer"}
  BoxCfgs <- McBoxCfgs
- Kinds = {"vote"}
+ Kinds = {"vote", "asset"}
  ReconfCfgs <- McReconfAll
  NewCfgs <- McNewCfgs
- Slices = {"sigs", "tamper", "payer", "box", "kinds", "reconf"}
+ Slices = {"sigs", "tamper", "payer", "junk", "box", "kinds", "reconf"}
  Dev = {}
 VIEW View
 PROPERTIES EffectOnlyIfAuthorized CanonicalAccepted RepeatNeverHelps ForeignNeverHelps RemovalNeverHelps EncodingIrrelevant TamperFalsifies PayerBinds ThresholdExact Reconf
